@@ -1,7 +1,7 @@
 ENGINES = [
     {'name': 'E-A', 'path': 'mc/ea.py', 'serves_properties': ['C01','C02','C03','C04','C05','C06','C07','C08','C09','C10','C12','C14','C18','C19','C20'], 'kind_free_text': 'declaration x input explorer: enumerated packet declarations rendered to real classes, all byte strings up to a length bound, reference interpreter as oracle'},
     {'name': 'E-B', 'path': 'mc/props', 'serves_properties': ['C11', 'C13', 'C15', 'C17'], 'kind_free_text': 'operation-history explorer: all histories up to a depth over a small alphabet on fresh real objects vs a reference model'},
-    {'name': 'E-C', 'path': 'mc/sched.py, mc/fsx.py', 'serves_properties': [], 'kind_free_text': 'schedule / fault explorer: preemption-bounded thread schedules, file-system step interleavings and crash points'},
+    {'name': 'E-C', 'path': 'mc/sched.py, mc/fsx.py', 'serves_properties': ['C13', 'C15', 'C16'], 'kind_free_text': 'schedule / fault explorer: preemption-bounded thread schedules, file-system step interleavings and crash points'},
 ]
 
 CHECKS = {
@@ -76,5 +76,9 @@ CHECKS['C17'] = {'engine': 'E-B', 'technique': 'explicit-state exploration: exha
 CHECKS['C18'] = {'engine': 'E-A', 'technique': 'exhaustive enumeration of flat declarations x all subsets of fixed fields x concrete value assignments x a complete corpus up to a length bound',
     'text': 'For every flat declaration of <=2 (thorough <=3) components over Int/Bits/Data in every sizing mode, every subset of fields fixed to the values of concrete packets (regex-metacharacter bytes first) with the rest Any(): the expression builds, every corpus string unpacking to an equal packet matches it, and filter() agrees with and without the pre-filter.',
     'note': 'Corpus = all strings up to the bound over a base alphabet and over regex metacharacters; at most 6 (quick) / 16 (thorough) concrete assignments per declaration.'}
+
+CHECKS['C13'] = {'engine': 'E-B + E-C', 'technique': 'explicit-state exploration of all operation histories up to depth 3/4 over up to 3 live packets, plus stateless model checking of real threads: all schedules up to a preemption bound (iterative context bounding) under a settrace-based cooperative scheduler',
+    'text': 'Sequential: 17 scenarios (one per shared-state shortcut: sequence/optional scratch slots, Bits shared integer, prototypes by pickle and deepcopy, selectors returning fresh or the same objects, marker/regex Data, described fields, shared sub-packet classes, default lists, a prototype shared by two classes, positioned fields) x generated/generic; all histories of construct/unpack/set scalar/append/set nested/pack; after every step all bystanders read and pack as before, pack is repeatable and pure, no mutable sub-object is shared, defaults are intact. Threads: every schedule with <=1 (quick) / <=2 (thorough) preemptions of 2 (thorough also 3) threads doing unpack+pack or construct+pack on distinct packets, switching at every source line of bisturi and of the generated modules; each thread must observe what it observes alone; violations are replayed twice before being reported.',
+    'note': 'Switches only at line boundaries inside bisturi/generated code; preemption bound as stated; selectors follow the Ref docstring (fresh object per call) except in the dedicated selector-shared scenario. F2 (regex delimiter not kept) is a listed known finding.'}
 
 NOT_APPLICABLE = {}
